@@ -1,8 +1,62 @@
 (* Correspondence for C19 (reply parsing).  Class bit 1 = non-utf8-failure-reason. *)
-From Rdest Require Import Base BCodec Metainfo TrackerResp Corr.MetaCase.
+From Rdest Require Import Base BCodec Metainfo TrackerResp Manager Tracker Corr.MetaCase.
 Open Scope N_scope.
 
-Inductive case := CResp (body : bytes) (impl : result (list (bytes * bytes))).
+Inductive case :=
+| CResp (body : bytes) (impl : result (list (bytes * bytes)))
+(* fault sequence: n failed announces then a reply listing `peers`, while `interested` peers are already
+   being downloaded from; what the harness saw: every pumped command came back (true) or the manager
+   was blocked (false); the peers contacted afterwards (sorted) and the candidates left (in order) *)
+| CFaults (n : N) (peers : list N) (interested : N) (pumps : list bool) (contacted cands : list N).
+
+(* model of the scenario: the transition system under the schedule "tracker runs until it sleeps or
+   blocks, then the manager handles one command" that the harness realises *)
+Fixpoint pump_model (j : bool) (fuel : nat) (s : tsys) (acc : list bool) : list bool * tsys :=
+  match fuel with
+  | O => (acc, s)
+  | S f =>
+      (* the task sends and goes to sleep (or finishes) *)
+      let s1 := match tnext j s StTracker with Some x => x | None => s end in
+      let s1 := match t_task s1 with TFinishing => match tnext j s1 StTracker with Some x => x | None => s1 end | _ => s1 end in
+      match tnext j s1 StMgrRecv with
+      | None => (acc, s1)
+      | Some s2 =>
+          match t_mgr s2 with
+          | MIdle => (* came back *)
+              let s3 := match t_task s2 with TSleeping _ => match tnext j s2 StTracker with Some x => x | None => s2 end | _ => s2 end in
+              pump_model j f s3 (acc ++ [true])
+          | MAwaitJob =>
+              match tnext j s2 StMgrJoin with
+              | Some s3 => pump_model j f s3 (acc ++ [true])      (* the task had finished: join returns at once *)
+              | None => (acc ++ [false], s2)                      (* blocked until the task ends *)
+              end
+          end
+      end
+  end.
+
+Fixpoint insert_sorted_N (x : N) (l : list N) : list N :=
+  match l with [] => [x] | y :: r => if x <=? y then x :: l else y :: insert_sorted_N x r end.
+Definition sortN (l : list N) : list N := fold_right insert_sorted_N [] l.
+
+Definition faults_model (n : N) (peers : list N) (interested : N) : list bool * list N * list N :=
+  let '(pumps, s) := pump_model Session_join_tracker_only_on_resp (S (N.to_nat n)) (t_init (N.to_nat n)) [] in
+  let m0 := mkmgr [Missing; Missing; Missing]
+                  (map (fun k => (1000 + N.of_nat k, set_assign (new_peer None 3) None true)) (seq 0 (N.to_nat interested)))
+                  [] 0 false [4; 4; 2] in
+  if t_got_resp s then
+    let '(m1, sp) := handle_tracker_resp m0 (map (fun a => (a, [])) peers) in
+    (pumps, sortN (flat_map (fun x => match x with SpPeer a => [a] | _ => [] end) sp), map fst (m_candidates m1))
+  else (pumps, [], []).
+
+(* specification: the manager always comes back, and ends up contacting the listed peers (as many as the
+   upload/download slots allow, taken from the end of the list) *)
+Definition faults_spec (n : N) (peers : list N) (interested : N) (pumps : list bool) (contacted cands : list N) : bool :=
+  let k := N.min (len peers) (11 - interested) in
+  let keep := N.to_nat (len peers - k) in
+  list_eqb Bool.eqb pumps (repeat true (S (N.to_nat n)))
+  && list_eqb N.eqb contacted (sortN (skipn keep peers))
+  && list_eqb N.eqb cands (firstn keep peers).
+
 
 Definition peers_eqb (a b : list (bytes * bytes)) : bool :=
   list_eqb (fun x y => bytes_eqb (fst x) (fst y) && bytes_eqb (snd x) (snd y)) a b.
@@ -23,7 +77,7 @@ Definition spec_peer (v : bvalue) : option (bytes * bytes) :=
 Definition spec_dict_ok (d : dict) (out : list (bytes * bytes)) : bool :=
   match map_get k_failure d, map_get k_interval d, map_get k_peers d with
   | Some (BStr _), _, _ => false
-  | _, Some (BInt i), Some (BList l) => (0 <=? i)%Z && peers_eqb (filter_map spec_peer l) out
+  | _, Some (BInt i), Some (BList l) => (0 <=? i)%Z && peers_eqb (Metainfo.filter_map spec_peer l) out
   | _, _, _ => false
   end.
 Definition has_str_failure (d : dict) : bool :=
@@ -31,6 +85,10 @@ Definition has_str_failure (d : dict) : bool :=
 
 Definition code (c : case) : N :=
   match c with
+  | CFaults n peers interested pumps contacted cands =>
+      let '(mp, mc, mk) := faults_model n peers interested in
+      let k := list_eqb Bool.eqb mp pumps && list_eqb N.eqb mc contacted && list_eqb N.eqb mk cands in
+      (if k then 0 else 1) + (if faults_spec n peers interested pumps contacted cands then 0 else 2 + 4 * 2)
   | CResp body impl =>
       let model := do t <- tracker_resp_of body; Ok (peers_out t) in
       let k := res_eqb peers_eqb model impl in
